@@ -27,6 +27,8 @@
                        without a value, or a property without a getter: `application_path`, `cert_reqs`)
   inetIsV6             the test of `socket.socket(socket.AF_INET6 if <test> else socket.AF_INET, type_)` in `_create_sockets`,
                        translated as a function of the bind string as given, the bind string without brackets and the parsed host
+  createSocketsCarried the locals of `_create_sockets` whose value can reach an iteration of `for bind in binds:` from an earlier
+                       iteration or from in front of the loop (definite-assignment analysis of the loop body; none in the pinned source)
   redirectPathSource   the scope key `HTTPToHTTPSRedirectMiddleware._new_url` builds the path of the Location from
                        (`raw_path` = the request target as sent, or `path` = its percent-decoded form)
 
@@ -482,6 +484,176 @@ def inet_family_test(src: Path, ex: Any) -> Optional[str]:
     return found
 
 
+def create_sockets_carried(src: Path, ex: Any) -> Optional[List[str]]:
+    """The locals of `Config._create_sockets` whose value can reach an iteration of `for bind in binds:` from an earlier iteration
+    or from in front of the loop: every name the function binds that the loop body reads at a point where this iteration has not
+    (on every path) bound it yet.  Definite-assignment analysis of the loop body - `if`/`else` and `try`/`except` join by
+    intersection, a path that ends in raise / continue / break / return does not count, a name bound under `if <test>:` is bound
+    again under a later `if <test>:` with the same test - so the result does not depend on how the parse is spelled.  The list the
+    function returns may only be appended to (`sockets.append(…)`); `self.<attr>` is listed when the loop both stores and reads it.
+    Each bind string must produce its socket by itself: the pinned source carries nothing."""
+    item = "createSocketsCarried"
+    fn = ex.find_def(ex.parse(src / "config.py"), "Config", "_create_sockets")
+    if fn is None:
+        ex.fail(item, "Config._create_sockets not found")
+        return None
+    loops = [s for s in fn.body if isinstance(s, ast.For) and _norm(s.target) == "bind" and _norm(s.iter) == "binds"]
+    if len(loops) != 1 or loops[0].orelse:
+        ex.fail(item, "no single `for bind in binds:` in _create_sockets")
+        return None
+    loop = loops[0]
+    after = fn.body[fn.body.index(loop) + 1:]
+    if len(after) != 1 or not isinstance(after[0], ast.Return) or not isinstance(after[0].value, ast.Name):
+        ex.fail(item, "the loop is not followed by `return <list>` alone")
+        return None
+    acc = after[0].value.id
+    params = {a.arg for a in fn.args.args + fn.args.kwonlyargs}
+    # names the function binds (a parameter counts when the loop rebinds it)
+    stored_in_loop = {n.id for st in loop.body for n in ast.walk(st) if isinstance(n, ast.Name) and isinstance(n.ctx, ast.Store)}
+    tracked = {n.id for n in ast.walk(fn) if isinstance(n, ast.Name) and isinstance(n.ctx, ast.Store)}
+    tracked = {n for n in tracked if n not in params or n in stored_in_loop}
+    carried: List[str] = []
+
+    class Unread(Exception):
+        pass
+
+    def comp_bound(e: ast.AST) -> set:
+        out = set()
+        for c in ast.walk(e):
+            if isinstance(c, ast.comprehension):
+                out |= {n.id for n in ast.walk(c.target) if isinstance(n, ast.Name)}
+            elif isinstance(c, ast.Lambda):
+                out |= {a.arg for a in c.args.args}
+        return out
+
+    def reads(e: Optional[ast.AST], st: tuple) -> None:
+        if e is None:
+            return
+        own = comp_bound(e)
+        for n in ast.walk(e):
+            if isinstance(n, ast.Name) and isinstance(n.ctx, ast.Load) and n.id in tracked and n.id not in own and n.id not in st[0] \
+                    and n.id != acc and n.id not in carried:
+                carried.append(n.id)
+
+    def bind_names(t: ast.AST, st: tuple) -> tuple:
+        names = {n.id for n in ast.walk(t) if isinstance(n, ast.Name) and isinstance(n.ctx, ast.Store)}
+        for n in ast.walk(t):                               # `x[i] = …` / `x.a = …` read x
+            if isinstance(n, (ast.Subscript, ast.Attribute)):
+                reads(n.value, st)
+                if isinstance(n, ast.Subscript):
+                    reads(n.slice, st)
+        conds = {k: v for k, v in st[1].items() if not (k[1] & names)}
+        return (st[0] | names, conds)
+
+    def walrus(e: Optional[ast.AST], st: tuple) -> tuple:
+        if e is not None:
+            for n in ast.walk(e):
+                if isinstance(n, ast.NamedExpr):
+                    st = bind_names(n.target, st)
+        return st
+
+    def join(a: Optional[tuple], b: Optional[tuple]) -> Optional[tuple]:
+        if a is None:
+            return b
+        if b is None:
+            return a
+        return (a[0] & b[0], {k: a[1][k] & b[1][k] for k in a[1] if k in b[1]})
+
+    def block(stmts: List[ast.stmt], st: Optional[tuple]) -> Optional[tuple]:
+        for s in stmts:
+            if st is None:
+                return None
+            st = stmt(s, st)
+        return st
+
+    def stmt(s: ast.stmt, st: tuple) -> Optional[tuple]:
+        if isinstance(s, ast.Assign):
+            reads(s.value, st)
+            st = walrus(s.value, st)
+            for t in s.targets:
+                st = bind_names(t, st)
+            return st
+        if isinstance(s, ast.AnnAssign):
+            reads(s.value, st)
+            return bind_names(s.target, walrus(s.value, st)) if s.value is not None else st
+        if isinstance(s, ast.AugAssign):
+            reads(s.value, st)
+            reads(ast.Name(id=s.target.id, ctx=ast.Load()) if isinstance(s.target, ast.Name) else s.target, st)
+            return bind_names(s.target, st)
+        if isinstance(s, ast.Expr):
+            reads(s.value, st)
+            return walrus(s.value, st)
+        if isinstance(s, ast.If):
+            reads(s.test, st)
+            st = walrus(s.test, st)
+            key = (_norm(s.test), frozenset(n.id for n in ast.walk(s.test) if isinstance(n, ast.Name)))
+            a = block(s.body, (st[0] | st[1].get(key, frozenset()), st[1]))
+            b = block(s.orelse, st)
+            out = join(a, b)
+            if out is not None and a is not None and not (key[1] & (a[0] - st[0])):
+                conds = dict(out[1])
+                conds[key] = frozenset(a[0] - out[0]) | conds.get(key, frozenset())
+                out = (out[0], conds)
+            return out
+        if isinstance(s, ast.Try):
+            a = block(s.orelse, block(s.body, st))
+            for h in s.handlers:
+                reads(h.type, st)
+                hs = (st[0] | ({h.name} if h.name else set()), st[1])
+                a = join(a, block(h.body, hs))
+            if s.finalbody:
+                f = block(s.finalbody, st)
+                if f is None or a is None:
+                    return None
+                a = (a[0] | f[0], a[1])
+            return a
+        if isinstance(s, (ast.Raise, ast.Return)):
+            reads(getattr(s, "exc", None) or getattr(s, "value", None), st)
+            return None
+        if isinstance(s, (ast.Continue, ast.Break)):
+            return None
+        if isinstance(s, ast.Pass):
+            return st
+        if isinstance(s, (ast.For, ast.While)):
+            if isinstance(s, ast.For):
+                reads(s.iter, st)
+                inner = bind_names(s.target, st)
+            else:
+                reads(s.test, st)
+                inner = st
+            block(s.body, inner)
+            block(s.orelse, st)
+            return st                                          # the body may not run at all
+        if isinstance(s, ast.With):
+            for it in s.items:
+                reads(it.context_expr, st)
+                if it.optional_vars is not None:
+                    st = bind_names(it.optional_vars, st)
+            return block(s.body, st)
+        if isinstance(s, ast.Assert):
+            reads(s.test, st)
+            return st
+        raise Unread(f"`{_norm(s).splitlines()[0][:70]}`: a statement this analysis does not read")
+
+    try:
+        block(loop.body, (frozenset({"bind"}), {}))
+    except Unread as e:
+        ex.fail(item, str(e))
+        return None
+    # the accumulator: bound in front of the loop, only ever `<acc>.append(<one value>)` inside it
+    uses = [n for st in loop.body for n in ast.walk(st) if isinstance(n, ast.Name) and n.id == acc]
+    appends = [n for st in loop.body for n in ast.walk(st) if isinstance(n, ast.Expr) and isinstance(n.value, ast.Call)
+               and _norm(n.value.func) == f"{acc}.append" and len(n.value.args) == 1 and not n.value.keywords
+               and not any(isinstance(x, ast.Name) and x.id == acc for x in ast.walk(n.value.args[0]))]
+    if len(uses) != len(appends) or not appends:
+        carried.append(acc)
+    # state kept on the instance: an attribute of `self` the loop both writes and reads
+    wr = {n.attr for st in loop.body for n in ast.walk(st) if isinstance(n, ast.Attribute) and isinstance(n.ctx, ast.Store) and _norm(n.value) == "self"}
+    rd = {n.attr for st in loop.body for n in ast.walk(st) if isinstance(n, ast.Attribute) and isinstance(n.ctx, ast.Load) and _norm(n.value) == "self"}
+    carried += [f"self.{a}" for a in sorted(wr & rd)]
+    return carried
+
+
 def redirect_path_source(src: Path, ex: Any) -> Optional[str]:
     fn = ex.find_def(ex.parse(src / "middleware" / "http_to_https.py"), "HTTPToHTTPSRedirectMiddleware", "_new_url")
     if fn is None:
@@ -566,6 +738,7 @@ def run(src: Path, ex: Any) -> dict:
     g = from_mapping_guards(src, ex)
     rk = config_key_readability(src, ex)
     fam = inet_family_test(src, ex)
+    car = create_sockets_carried(src, ex)
     # always written (an unrecognised shape as `.unrecognised` / `[]` / `false` + an EXTRACT-FAIL line), so that only C19's tie breaks
     # and the models of the other properties (which import HC.Pure.Config for the response headers) still build
     more = ["",
@@ -582,7 +755,10 @@ def run(src: Path, ex: Any) -> dict:
             "/-- the test of `socket.socket(socket.AF_INET6 if … else socket.AF_INET, type_)` in `Config._create_sockets`:",
             "    `bind0` = the bind string as given, `bind` = with the brackets removed, `host` = the parsed host"
             + ("" if fam is not None else " (NOT RECOGNISED in the current source)") + " -/",
-            f"def inetIsV6 (bind0 bind host : List Char) : Bool :=\n  {fam if fam is not None else 'false'}"]
+            f"def inetIsV6 (bind0 bind host : List Char) : Bool :=\n  {fam if fam is not None else 'false'}",
+            "/-- the locals of `Config._create_sockets` whose value can reach an iteration of `for bind in binds:` from an earlier iteration",
+            "    or from in front of the loop (read where this iteration has not bound them on every path; `?` = a loop that is not read) -/",
+            "def createSocketsCarried : List String := [" + ", ".join(ex.q(k) for k in (car if car is not None else ["?"])) + "]"]
     files["ConfigSites"] = files["ConfigSites"].replace("\nend HC.Extracted.ConfigSites\n", "\n".join(more + ["", "end HC.Extracted.ConfigSites", ""]))
     ex.CURRENT[0] = "RedirectSites"
     p = redirect_path_source(src, ex)
